@@ -31,6 +31,6 @@ Theorem C07_self_disable_deferred : forall s o t, is_running s o = true -> (exis
 Proof. intros s o t H [ob E]. unfold disp_unregister. rewrite E, H. reflexivity. Qed.
 
 Example C07_nonvacuous :
-  let s0 := run (fun _ => []) (fun _ => []) [CAct (AInsert 1 (SComp false None [mkGen 10 (mkInt true false) Level None false]))] in
+  let s0 := run (fun _ => []) (fun _ => []) [CAct (AInsert 1 (SComp false None [mkGen 10 (mkInt true false) Level None false] None))] in
   exists s', disp_unregister s0 1 (mkTok 0 0 0) = (ROk, true, s') /\ is_running s0 1 = false.
 Proof. eexists. split; vm_compute; reflexivity. Qed.
